@@ -760,6 +760,11 @@ def assembly_tie(c):
     differ = []
     for op, a, b in zip(ops, impl, model):
         c.evaluations += 1
+        if op.startswith("hasval "):
+            c.hist("assembly-hasValidations", b)
+            if a != b:
+                differ.append((op, a, b))
+            continue
         if op.startswith("compile "):
             c.hist("assembly", "attribute trees")
             for kw in ("nn(", "each(", "kv(", "miss(", "enumn[", "enums[", "fmt", "pat", "runes", "len", "le:", "ge:"):
